@@ -122,7 +122,7 @@ CHECKS = {
         "rule": ("kind own-enum(-bg) = one generated base case (sources may answer under an ended context like any other call - 'lax' - and E may wrap a context error); kind own-case(-bg) = one (base, stop point, fault) execution; kind join-shared-args = Joins built from parts of one argument slice with spare capacity, a Join of a Join, a bystander stream (non-trivial = a Join was given to another Join). non-trivial = the consumer stopped strictly inside the sequence (0 < j, not at End) or a fault was "
                  "actually delivered, i.e. some owned stream is still open when the consumer walks away; distinct = distinct case JSON"),
         "assumptions": ["sk.RecStream call log", "rapid v1.3.0; go1.26.8 testing/synctest"],
-        "jobs": [{"pkg": "c09own", "kinds": ["own-enum", "own-case", "own-enum-bg", "own-case-bg", "join-shared-args"], "scale_thorough": 10, "shards_thorough": 16, "replay_reps": 20}],
+        "jobs": [{"pkg": "c09own", "kinds": ["own-enum", "own-case", "own-enum-bg", "own-case-bg", "join-shared-args", "panic-abandon"], "scale_thorough": 10, "shards_thorough": 16, "replay_reps": 20}],
     },
     "C20": {
         "level": "exploration",
